@@ -727,6 +727,21 @@ func (x *Exec) mapUpdate(st *State, fr *Frame, in *ssa.MapUpdate) {
 		fail("MapUpdate on %s", valueString(x.val(fr, in.Map)))
 	}
 	k := x.val(fr, in.Key)
+	if m.cell != nil {
+		sm := st.store[m.cell].(*SymMap)
+		var kt []*Term
+		if !flatten(k, &kt) {
+			fail("symbolic map with non-scalar key")
+		}
+		n := &SymMap{name: sm.name, vt: sm.vt}
+		n.writes = append(append([]mapWrite{}, sm.writes...), mapWrite{key: kt, val: x.val(fr, in.Value)})
+		st.store[m.cell] = n
+		st.wlog = append(st.wlog, m.cell.id)
+		if st.written != nil {
+			st.written[m.cell] = true
+		}
+		return
+	}
 	r, ok := keyRepr(k)
 	if !ok {
 		fail("map update with symbolic key")
@@ -758,8 +773,26 @@ func (x *Exec) lookup(st *State, fr *Frame, in *ssa.Lookup) Value {
 	}
 	k := x.val(fr, in.Index)
 	vt := m.typ.Underlying().(*types.Map).Elem()
+	if m.cell != nil {
+		val, has := x.symMapLookup(st, m, k)
+		if in.CommaOk {
+			return &Tuple{typ: in.Type(), el: []Value{val, has}}
+		}
+		z, ok := iteValue(has, val, zeroValue(vt))
+		if !ok {
+			fail("symbolic map lookup: value not mergeable with zero")
+		}
+		return z
+	}
 	r, ok := keyRepr(k)
 	if !ok {
+		if len(m.keys) == 0 {
+			// empty concrete map: nothing is present
+			if in.CommaOk {
+				return &Tuple{typ: in.Type(), el: []Value{zeroValue(vt), tFalse}}
+			}
+			return zeroValue(vt)
+		}
 		fail("map lookup with symbolic key")
 	}
 	e, found := m.entries[r]
@@ -981,3 +1014,28 @@ func (x *Exec) appendSlice(st *State, fr *Frame, s *SliceV, more Value) Value {
 }
 
 var _ = big.NewInt
+
+// symMapLookup returns (value, present) for key k of a symbolic map.
+func (x *Exec) symMapLookup(st *State, m *MapV, k Value) (Value, *Term) {
+	sm := st.store[m.cell].(*SymMap)
+	var kt []*Term
+	if !flatten(k, &kt) {
+		fail("symbolic map with non-scalar key")
+	}
+	var val Value = x.ufResult(st, "mapval_"+sm.name, sm.vt, kt)
+	has := x.ufApp(st, "maphas_"+sm.name, SBool, kt)
+	for _, w := range sm.writes {
+		var eqs []*Term
+		for i := range kt {
+			eqs = append(eqs, mkEq(kt[i], w.key[i]))
+		}
+		hit := mkAnd(eqs...)
+		nv, ok := iteValue(hit, w.val, val)
+		if !ok {
+			fail("symbolic map: values not mergeable")
+		}
+		val = nv
+		has = mkOr(hit, has)
+	}
+	return val, has
+}
